@@ -18,7 +18,7 @@ RULE = ('for every single-input catalogue program (wrapped as R^n -> R^m) and ra
         'class = (program, call kind, kind of the preceding call); non-trivial = the call is not the first of its history')
 ASSUMPTIONS = ['a freshly recorded graph answering the call first is the reference (its correctness is C03/C04/C05 matter)']
 DRIVERS = ['gradient', 'jacobian', 'hessian', 'jac_vec', 'vec_jac', 'hess_vec', 'vec_hess', 'vec_hess_vec']
-REQUIRED = ['forward', 'pullback', 'pullback:second', 'other-graph-between'] + DRIVERS
+REQUIRED = ['forward', 'pullback', 'pullback:second', 'other-graph-between', 'returned-values-stable'] + DRIVERS
 
 
 def vector_programs():
@@ -112,36 +112,42 @@ def _other_graph(rng):
 
 
 def _call(cgv, cgs, call, state):
-    """executes one call; returns its result value. state: dict with 'x' of the latest forward evaluation per graph"""
+    r = _call_raw(cgv, cgs, call, state)
+    state.setdefault('raw', []).append((call[0], r, _val(r)))
+    return _val(r)
+
+
+def _call_raw(cgv, cgs, call, state):
+    """executes one call; returns the object handed to the user"""
     k = call[0]
     if k == 'forward':
         _, which, x = call
         cg = cgv if which == 'v' else cgs
         r = cg.function([UTPM(x.copy()) if x.ndim > 1 else x.copy()])[0]
         state['last'] = which
-        return _val(r)
+        return r
     if k == 'pullback':
         _, which, s = call
         cg = cgv if which == 'v' else cgs
         cg.pullback([UTPM(s.copy())])
-        return _val(cg.independentFunctionList[0].xbar)
+        return cg.independentFunctionList[0].xbar
     if k == 'gradient':
-        return _val(cgs.gradient(call[1].copy()))
+        return cgs.gradient(call[1].copy())
     if k == 'hessian':
-        return _val(cgs.hessian(call[1].copy()))
+        return cgs.hessian(call[1].copy())
     if k == 'hess_vec':
-        return _val(cgs.hess_vec(call[1].copy(), call[2].copy()))
+        return cgs.hess_vec(call[1].copy(), call[2].copy())
     if k == 'jacobian':
         x = call[1]
-        return _val(cgv.jacobian(UTPM(x.copy()) if x.ndim > 1 else x.copy()))
+        return cgv.jacobian(UTPM(x.copy()) if x.ndim > 1 else x.copy())
     if k == 'jac_vec':
-        return _val(cgv.jac_vec(call[1].copy(), call[2].copy()))
+        return cgv.jac_vec(call[1].copy(), call[2].copy())
     if k == 'vec_jac':
-        return _val(cgv.vec_jac(call[1].copy(), call[2].copy()))
+        return cgv.vec_jac(call[1].copy(), call[2].copy())
     if k == 'vec_hess':
-        return _val(cgv.vec_hess(call[1].copy(), call[2].copy()))
+        return cgv.vec_hess(call[1].copy(), call[2].copy())
     if k == 'vec_hess_vec':
-        return _val(cgv.vec_hess_vec(call[1].copy(), call[2].copy(), call[3].copy()))
+        return cgv.vec_hess_vec(call[1].copy(), call[2].copy(), call[3].copy())
     raise KeyError(k)
 
 
@@ -258,3 +264,11 @@ def run_case(ctx, case):
         ctx.ok(label, (name, kind, prev_kind), noise=e if isinstance(e, float) else None,
                sample={'program': name, 'history': [c[0] for c in hist], 'checked_call': i} if (i == len(hist) - 1 and rng.random() < 0.05) else None)
         prev_kind = kind; last_real = call
+    # values handed to the user earlier must not have changed retroactively
+    for j, (k_, raw, snap) in enumerate(state.get('raw', [])):
+        now = _val(raw)
+        ok, e = _close(now, snap)
+        same_shape = True
+        if not ok:
+            ctx.violation('returned-value-changed-later:%s' % k_, {'program': name, 'call': k_, 'position': j, 'history': [c[0] for c in hist]}); return
+    ctx.ok('returned-values-stable', ('stable', name))
